@@ -218,7 +218,8 @@ class CCodeMapper(SimplifyingSortingStringifyMapper):
             self.cse_to_name[expr.child] = cse_name
             self.cse_names.add(cse_name)
 
-            assert len(self.cse_names) == len(self.cse_to_name)
+            # names may be declared (by their code strings) without a subexpression
+            assert len(self.cse_names) >= len(self.cse_to_name)
 
         return cse_name
 
